@@ -383,7 +383,7 @@ func genFramer(c *Ctx) {
 	emit := func(pieces List) {
 		s := streamOf(pieces)
 		in := L(Sym("stream"), append(List{Sym("pieces")}, pieces...), partitions(c, s))
-		c.Emit(in, runFramer(in))
+		c.Pending(in); c.Emit(in, runFramer(in))
 	}
 	// fixed small cases first
 	emit(List{})
